@@ -903,7 +903,8 @@ func (r *Runner) finalProfile() {
 					w.ViolateLocked("C18", "R2", "C18/R2/leaderch-does-not-hold-the-latest-transition", "%s/%d at rest is %v but LeaderCh holds %v", in.ID(), in.Gen, in.R.State(), v)
 				}
 			default:
-				if gains > 0 {
+				// (empty is right if the harness took the value in mid-run and nothing changed since)
+				if st := r.ist[in]; gains > 0 && !(st != nil && st.peekedSomething && st.peekStates == gains+losses && st.peekedValue == isLeader) {
 					w.ViolateLocked("C18", "R2", "C18/R2/leaderch-empty-after-transitions", "%s/%d had %d leadership gains but LeaderCh (never read) is empty", in.ID(), in.Gen, gains)
 				}
 			}
